@@ -102,8 +102,13 @@ def linked_pairs(draw, graph):
     edges = base.graph_edges(graph)
     out = []
     if len(edges) >= 2:
-        for _ in range(draw(st.integers(1, 3))):
+        for _ in range(draw(st.integers(1, 4))):
             a, b = gen.pick(draw, edges), gen.pick(draw, edges)
+            if gen.chance(draw, 6):
+                # prefer a "parallel road": an edge that shares no node with a
+                far = [e for e in edges if not (set(e) & set(a))]
+                if far:
+                    b = gen.pick(draw, far)
             if a != b and [list(a), list(b)] not in out:
                 out.append([list(a), list(b)])
                 if draw(st.booleans()):
